@@ -115,6 +115,9 @@ func (c *FnVC) applyContract(x *ssa.Call, ct *Contract, f *ssa.Function, sig *ty
 		}
 	}
 	c.callN[name]++
+	if ct.Trusted || ct.Extern {
+		c.trustedUsed[name] = true
+	}
 	tag := fmt.Sprintf("%s#%d", shortCallee(name), c.callN[name])
 	c.comment("call " + tag)
 	pre := c.newEval(f, env, copyHeap(c.cur), nil)
